@@ -517,4 +517,75 @@ example : cSliceCount (putSliceCount 257 false) 256 = none := by
   simpa using this
 example : decBatch [3, 1, 1, 7, 2] = none := by decide
 
+/-! ### encoder / decoder symmetry -/
+
+theorem guard_inv {α : Type} (p : P α) (g : α → Bool) (d : Bytes) (a : α) (n : Nat)
+    (h : p.guard g d = some (a, n)) : g a = true := by
+  simp only [P.guard] at h
+  split at h
+  · split at h
+    · rename_i hg; simp only [Option.some.injEq, Prod.mk.injEq] at h; obtain ⟨rfl, _⟩ := h; exact hg
+    · cases h
+  · cases h
+
+theorem decBatch_priority (d : Bytes) (b : XBatch) (h : decBatch d = some b) : b.priority = 0 := by
+  unfold decBatch at h
+  split at h
+  · cases h
+  · simp only [P.eof, pBatch, P.map, P.andThen] at h
+    split at h
+    · rename_i x n hx
+      split at hx
+      · rename_i y m hy
+        split at hy
+        · cases hy
+        · rename_i v n1 hv
+          split at hy
+          · cases hy
+          · rename_i z n2 hz
+            split at hz
+            · cases hz
+            · rename_i pb n3 hpb
+              split at hz
+              · cases hz
+              · rename_i its n4 hits
+                simp only [Option.some.injEq, Prod.mk.injEq] at hz hy hx
+                obtain ⟨rfl, rfl⟩ := hz
+                obtain ⟨rfl, rfl⟩ := hy
+                obtain ⟨rfl, rfl⟩ := hx
+                split at h
+                · simp only [Option.some.injEq] at h
+                  subst h
+                  have := guard_inv pByte (· == (0 : UInt8)) _ _ _ hpb
+                  simpa using this
+                · cases h
+      · cases hx
+    · cases h
+
+/-- **encode/decode symmetry** of the exchange batch envelope (probe items):
+    (1) whatever the encoder emits the decoder accepts, as the same batch;
+    (2) hence the encoder never emits a frame the decoder would refuse;
+    (3) conversely whatever the decoder accepts passes every per-batch and per-item check the
+        encoder applies (foreground priority, 1..256 items, non-zero request ids, `Valid()` probe
+        requests with at most 256 indexes) and is within the 4 MiB frame bound. -/
+theorem c27_encode_decode_symmetry :
+    (∀ (b : XBatch) (bytes : Bytes), b.wf → encBatch b = some bytes → decBatch bytes = some b) ∧
+    (∀ (b : XBatch) (bytes : Bytes), b.wf → decBatch bytes = none → encBatch b ≠ some bytes) ∧
+    (∀ (d : Bytes) (b : XBatch), decBatch d = some b →
+      b.priority = 0 ∧ b.items.length ≠ 0 ∧ b.items.length ≤ maxBatchItems ∧ d.length ≤ maxExchangeBatchBytes ∧
+      ∀ it ∈ b.items, it.requestID ≠ 0 ∧ it.probe.valid = true) := by
+  refine ⟨fun b bytes hw he => c27_batch_roundtrip b bytes hw he, ?_, ?_⟩
+  · intro b bytes hw hd he
+    rw [c27_batch_roundtrip b bytes hw he] at hd
+    cases hd
+  · intro d b h
+    obtain ⟨h1, h2, h3, h4⟩ := c27_batch_bounded d b h
+    exact ⟨decBatch_priority d b h, h2, h3, h1, fun it hit => ⟨(h4 it hit).1, (h4 it hit).2.1⟩⟩
+
+example : decBatch [3, 1, 1, 7, 2] = none ∧ encBatch demoBatch ≠ some [3, 1, 1, 7, 2] := by
+  refine ⟨by decide, c27_encode_decode_symmetry.2.1 demoBatch _ ?_ (by decide)⟩
+  intro it hit
+  simp [demoBatch] at hit
+  rcases hit with rfl | rfl <;> refine ⟨?_, ?_, ?_, ?_, ?_⟩ <;> simp [maxExchangeBatchBytes, idxOK, maxProbeIndexes]
+
 end WK.C27
